@@ -34,6 +34,14 @@ PROGRAMS = [
 _BSN = 'x = "a\\nb"\ny = r"c\\nd"  # \\n\nz = 1\n'
 PROGRAMS.append({"id": "backslash_n", "text": _BSN,
                  "values": {"c": "z = 1", "e": " + linesep + ".join(repr(ln) for ln in _BSN.split("\n")), "m": "verifmod_backslash_n"}})
+# -e expressions that use `linesep` from a nested scope (generator expression, lambda, comprehension)
+_E2 = "x = 1\ny = 2\n"
+PROGRAMS.append({"id": "e_genexp", "text": _E2, "values": {"c": "x = 1\\ny = 2\\n", "m": "verifmod_e_genexp",
+                 "e": "''.join(ln + linesep for ln in ('x = 1', 'y = 2'))"}})
+PROGRAMS.append({"id": "e_lambda", "text": _E2, "values": {"c": "x = 1\\ny = 2\\n", "m": "verifmod_e_lambda",
+                 "e": "(lambda a, b: a + linesep + b + linesep)('x = 1', 'y = 2')"}})
+PROGRAMS.append({"id": "e_listcomp", "text": _E2, "values": {"c": "x = 1\\ny = 2\\n", "m": "verifmod_e_listcomp",
+                 "e": "''.join([ln + linesep for ln in ('x = 1', 'y = 2')])"}})
 # two sources given the IDENTICAL string are still two sources
 PROGRAMS.append({"id": "same_c_e", "text": "pass\n", "values": {"c": "'pass'", "e": "'pass'", "m": "verifmod_same_c_e"}})
 PROGRAMS.append({"id": "same_c_m", "text": "x = 1\n", "values": {"c": "verifmod_same_c_m", "e": "'x = 1'", "m": "verifmod_same_c_m"}})
